@@ -158,3 +158,31 @@ def printed_values(stdout, head):
             out.append(parse("\n".join(buf)))
             buf = None
     return out
+
+
+def parse_error_trace(stdout, only=None):
+    """States of the counterexample TLC prints after 'Error: Invariant ... is violated' (list of dicts)."""
+    i = stdout.find("Error: Invariant")
+    if i < 0:
+        i = stdout.find("Error: Action property")
+    if i < 0:
+        return []
+    txt = stdout[i:]
+    j = txt.find("\n\n", txt.rfind("State "))
+    parts = re.split(r"^State (\d+):[^\n]*$", txt, flags=re.M)
+    out = []
+    for k in range(1, len(parts), 2):
+        body = parts[k + 1]
+        # the last state's body ends at the first blank line followed by a non-conjunct line
+        m = re.search(r"\n\s*\n(?!/\\)", body)
+        if m:
+            body = body[:m.start()]
+        st = {}
+        for chunk in re.split(r"^/\\ ", body, flags=re.M)[1:]:
+            name, _, val = chunk.partition(" = ")
+            name = name.strip()
+            if only is not None and name not in only:
+                continue
+            st[name] = parse(val)
+        out.append(st)
+    return out
